@@ -59,13 +59,14 @@ def _fixed_file(ctx):
     return p
 
 def _count_q(text, tags):
+    """number of individual query results on the Q lines of the given groups"""
     n = 0
     for ln in text.split("\n"):
-        if ln.startswith("Q "):
-            t = ln.split(" ", 2)[1]
-            if t in tags:
-                # number of results on the line = tokens after the colon
-                n += max(1, len(ln.split(":", 1)[1].replace("[", " ").split("]")) - 1) if t in ("ghvv", "ghvh") else max(1, len(ln.split(":", 1)[1].split()))
+        if not ln.startswith("Q ") or ":" not in ln: continue
+        t = ln.split(" ", 2)[1]
+        if t not in tags: continue
+        body = ln.split(":", 1)[1]
+        n += max(1, body.count("]")) if t in ("ghvv", "ghvh") else max(1, len(body.split()))
     return n
 
 C10_TAGS = {"fhe", "fhec", "fhf", "fhfc", "fhfh", "ghv", "ghvv", "ghvh", "inc", "nvc", "nxt"}
